@@ -12,6 +12,7 @@ sys.path.insert(0, os.path.join(ROOT, "kani"))
 REPO = os.environ.get("VERIF_REPO", "/repo")
 CACHE = os.path.join(ROOT, ".cache", "kani")
 JOBS = os.environ.get("VERIF_JOBS", "16")
+MAX_REPLAYS = int(os.environ.get("VERIF_MAX_REPLAYS", "5"))
 
 CARGO_TOML = """[package]
 name = "kh"
@@ -160,7 +161,7 @@ def run(pid, cfg, tier, rdir):
     props_ = {r["harness_id"].split("::")[-1]: r["property_details"] for r in j.get("property_details", [])}
     stats = {r["harness_id"].split("::")[-1]: r.get("cbmc_stats", {}) for r in j.get("cbmc", [])}
     # playback is incompatible with -j: re-run each failed harness on its own (in parallel processes) for its counterexample
-    failed_names = [n_ for n_, r_ in results.items() if r_.get("status") != "Success" and n_ in by and any(
+    failed_names = [n_ for n_ in by if n_ in results for r_ in [results[n_]] if r_.get("status") != "Success" and any(
         c.get("status") in ("Failure", "FAILURE") and "unwinding assertion" not in c.get("description", "") for c in r_.get("checks", []))]
 
     def _pb(nm):
@@ -170,9 +171,9 @@ def run(pid, cfg, tier, rdir):
     playbacks = {}
     if failed_names:
         import concurrent.futures as cf
-        with cf.ThreadPoolExecutor(max_workers=8) as ex:
-            for nm, pb in ex.map(_pb, failed_names[:24]):
-                playbacks[nm] = pb
+        # sequential on purpose: concurrent cargo-kani runs in one crate contend for the build lock
+        for nm in failed_names[:MAX_REPLAYS]:
+            playbacks[nm] = _pb(nm)[1]
     checks_total = checks_passed = covers_sat = covers_unsat = 0
     solver_s = 0.0
     samples = []
@@ -240,9 +241,14 @@ def run(pid, cfg, tier, rdir):
             else:
                 fh.write("no concrete playback vector was printed for the failed check\n")
             fh.write("\nsource of the harness: %s/src/lib.rs (fn %s)\n" % (d, name))
-        res["violations"].append({"engine": "K", "obligation": name, "key": "K:%s" % name, "replay": path, "found_input": found,
-                                  "summary": real[0].get("description", "")[:160]})
-    res["coverage"] = {"harnesses": len(hs), "passed": res["passed"], "cbmc_checks": checks_total, "cbmc_checks_passed": checks_passed,
+        if name in playbacks:
+            res["violations"].append({"engine": "K", "obligation": name, "key": "K:%s" % name, "replay": path, "found_input": found,
+                                      "summary": real[0].get("description", "")[:160]})
+        else:
+            res.setdefault("more_failed", []).append(name)
+    if res.get("more_failed"):
+        print("(+%d more failing Kani harnesses, counterexamples not extracted: %s)" % (len(res["more_failed"]), ", ".join(res["more_failed"][:30])))
+    res["coverage"] = {"harnesses": len(hs), "passed": res["passed"], "failed_not_replayed": res.get("more_failed", []), "cbmc_checks": checks_total, "cbmc_checks_passed": checks_passed,
                        "covers_satisfied": covers_sat, "covers_unsatisfiable": covers_unsat,
                        "solver_s": round(solver_s, 2), "wall_s": round(wall, 1), "samples": samples,
                        "kani": (j.get("metadata", {}) or {}).get("kani_version"), "bound": "programs enumerated by kani/gen.py for tier %s" % tier}
